@@ -48,7 +48,8 @@ def macro_param_cases(ps):
     for p in ps:
         params = ['P%d' % i for i in range(p)]
         defaults = {params[i]: str(50 + i) for i in range(p) if i % 2 == 1}
-        body = ['\tdb ' + ','.join(['99'] + params)] if p else ['\tdb 99']
+        # (`P+0`: an empty argument still leaves a valid operand, so explicitly empty keyword arguments stay observable)
+        body = ['\tdb ' + ','.join(['99'] + [x + '+0' for x in params])] if p else ['\tdb 99']
         plist = ','.join(x + ('=' + defaults[x] if x in defaults else '') for x in params)
         shapes = ['omit', 'empty', 'simple', 'other', 'kw', 'kwempty']
 
@@ -226,6 +227,15 @@ def repetition_cases():
     yield pair(['\trept 2', 'lab:\tdb 1', '\tdw lab', '\tendm'], ['l1:\tdb 1', '\tdw l1', 'l2:\tdb 1', '\tdw l2'], 'local-labels/rept')
     yield pair(['m\tmacro {GLOBALSYMBOLS}', 'glab:\tdb 1', '\tendm', '\tm', '\tdw glab'], ['glab:\tdb 1', '\tdw glab'], 'globalsymbols')
     yield pair(['m\tmacro', 'lab:\tdb 1', '\tendm', 'lab:\tdb 7', '\tm', '\tdw lab'], ['lab:\tdb 7', 'l1:\tdb 1', '\tdw lab'], 'local-labels/outer-same-name')
+    # a label of an enclosing body is visible in the bodies nested in it (1, 2 and 3 levels down), also when a global label has the same name
+    for glob in (0, 1):
+        pre = ['entry:\tdb 7'] if glob else []
+        for inner, n in ((['\trept 2', '\tdw entry', '\tendm'], 2), (['\tirp q,1,2', '\tdw entry', '\tendm'], 2), (['\tirpc q,"ab"', '\tdw entry', '\tendm'], 2),
+                         (['\trept 1', '\trept 2', '\tdw entry', '\tendm', '\tendm'], 2), (['\trept 1', '\tirp q,1', '\trept 2', '\tdw entry', '\tendm', '\tendm', '\tendm'], 2)):
+            yield pair(pre + ['m\tmacro', 'entry:\tdb 1'] + inner + ['\tendm', '\tm', '\tm'],
+                       [l.replace('entry', 'gentry') for l in pre] + ['e1:\tdb 1'] + ['\tdw e1'] * n + ['e2:\tdb 1'] + ['\tdw e2'] * n, 'local-labels/enclosing-body')
+            yield pair(pre + ['\trept 2', 'entry:\tdb 1'] + inner + ['\tendm'],
+                       [l.replace('entry', 'gentry') for l in pre] + ['e1:\tdb 1'] + ['\tdw e1'] * n + ['e2:\tdb 1'] + ['\tdw e2'] * n, 'local-labels/enclosing-body-rept')
 
 
 # ---- (d) nesting -----------------------------------------------------------------------------------
